@@ -153,6 +153,9 @@ class FnTranslator:
                     and n.value.func.id in self.crit_class and len(n.targets) == 1 and isinstance(n.targets[0], ast.Name):
                 self.crit_objs.add(n.targets[0].id)
         self.find_list_vars(fn)
+        # names bound to a list display / comprehension somewhere: Python lists; `+`, `*`, `+=` on them concatenate / repeat, the IR's arrays do not
+        self.display_vars = {t.id for n in ast.walk(fn) if isinstance(n, ast.Assign) and isinstance(n.value, (ast.List, ast.ListComp))
+                             for t in n.targets if isinstance(t, ast.Name)}
         if 'params' in spec:
             params = list(spec['params']); defaults = [None] * len(params)
         else:
@@ -393,6 +396,8 @@ class FnTranslator:
         if isinstance(s, ast.AugAssign):
             if type(s.op) not in BINOPS:
                 self.fail(s, 'augmented operator')
+            if self.is_pylist(s.target) or self.is_pylist(s.value):
+                self.fail(s, 'arithmetic on a Python list')
             t = s.target
             if isinstance(t, ast.Name):
                 x = self.lookup(t.id)
@@ -524,6 +529,9 @@ class FnTranslator:
         return isinstance(f, ast.Attribute) and isinstance(f.value, ast.Name) and f.value.id in self.np_names \
             and f.value.id not in self.assigned and f.attr in attrs
 
+    def is_pylist(self, e):
+        return isinstance(e, (ast.List, ast.ListComp)) or (isinstance(e, ast.Name) and e.id in self.display_vars)
+
     def is_zero_const(self, e):
         return isinstance(e, ast.Constant) and not isinstance(e.value, bool) and isinstance(e.value, (int, float)) and e.value == 0
 
@@ -560,6 +568,8 @@ class FnTranslator:
                 return '(EBin BMul %s %s)' % (x, x)
             if type(e.op) not in BINOPS:
                 self.fail(e, 'operator')
+            if self.is_pylist(e.left) or self.is_pylist(e.right):
+                self.fail(e, 'arithmetic on a Python list')
             return '(EBin %s %s %s)' % (BINOPS[type(e.op)], self.expr(e.left), self.expr(e.right))
         if isinstance(e, ast.UnaryOp):
             if isinstance(e.op, ast.USub):
@@ -745,16 +755,25 @@ def translate(name, source=None):
 # ---------------------------------------------------------------- self-test of the fail-closed behaviour
 SELFTEST_OK = """
 import numpy
+import logging
 def f(r, n=None):
+    L = []
+    r = numpy.asarray(r)
     if r.dtype.kind in 'iub':
         r = r.astype(float)
     A = numpy.zeros(n, dtype=complex)
     T = r[1:]
     for k in range(0, n):
+        logging.debug(A[0:2])
         A[k] = T[k] * 2. - abs(r[k]) ** 2
         if A[k].real <= 0:
             raise ValueError('x')
-    return A, T
+        if A[k].real > 1. and A[k].real <= 2:
+            pass
+        else:
+            ValueError('y')
+        L.append(A[k].real)
+    return A, T, L
 """
 SELFTEST_BAD = [            # (what, old, new): each edit must make the translator refuse
     ('store into a parameter', "        A[k] = T[k]", "        r[k] = 1\n        A[k] = T[k]"),
@@ -784,6 +803,30 @@ SELFTEST_BAD = [            # (what, old, new): each edit must make the translat
     ('promotion to another type', "r.astype(float)", "r.astype(int)"),
     ('promotion with an else branch', "        r = r.astype(float)\n", "        r = r.astype(float)\n    else:\n        r = r * 2\n"),
     ('promotion assigning another name', "        r = r.astype(float)", "        n = r.astype(float)"),
+    # T3 (Marple routines): lists that are appended to, discarded exception objects, log arguments, asarray
+    ('append to an array', "L.append(A[k].real)", "A.append(A[k].real)"),
+    ('append to a parameter', "L.append(A[k].real)", "r.append(1.)"),
+    ('appended list used in arithmetic', "    return A, T, L", "    B = L * 2\n    return A, T, L"),
+    ('appended list indexed', "    return A, T, L", "    return A, T, L[0]"),
+    ('appended list aliased', "    L = []", "    L = []\n    M = L"),
+    ('appended list bound to an array', "    L = []", "    L = numpy.zeros(2)"),
+    ('appended list is a loop variable', "    L = []", "    L = []\n    for L in range(0, 2):\n        pass"),
+    ('append of two values', "L.append(A[k].real)", "L.append(A[k].real, 1)"),
+    ('append used as a value', "L.append(A[k].real)", "z = L.append(A[k].real)"),
+    ('extend', "L.append(A[k].real)", "L.extend([A[k].real])"),
+    ('append on an expression', "L.append(A[k].real)", "(L).copy().append(A[k].real)"),
+    ('discarded exception of an unknown class', "ValueError('y')", "RuntimeError('y')"),
+    ('discarded exception with a call in its message', "ValueError('y')", "ValueError(str(A.resize(3)))"),
+    ('discarded call of an unknown function', "ValueError('y')", "check(A)"),
+    ('index inside a log argument', "logging.debug(A[0:2])", "logging.debug(A[k + 7])"),
+    ('call inside a log argument', "logging.debug(A[0:2])", "logging.debug(A.resize(3))"),
+    ('slice of an expression inside a log argument', "logging.debug(A[0:2])", "logging.debug(numpy.zeros(3)[0:2])"),
+    ('asarray with a dtype', "numpy.asarray(r)", "numpy.asarray(r, dtype=complex)"),
+    ('store through an asarray alias', "    r = numpy.asarray(r)", "    r = numpy.asarray(r)\n    Q = numpy.asarray(A)\n    Q[0] = 1\n    A[0] = 2"),
+    ('list concatenation by +=', "L.append(A[k].real)", "L += [A[k].real]"),
+    ('list repetition', "    L = []", "    L = []\n    W = [1., 2.] * 2"),
+    ('list concatenation of a display variable', "    L = []", "    L = []\n    W = [1., 2.]\n    V = W + W"),
+    ('comparison with a string ordering', "A[k].real > 1.", "A[k].real > 'a' > 0"),
 ]
 
 
